@@ -2,12 +2,12 @@
 from harness import p_pipeline
 
 LEVEL = "model_checking"
-CLAUSES = ["selected", "inorder", "inputonly", "supplied", "raillog", "completes"]
+CLAUSES = ["selected", "inorder", "inputonly", "supplied", "outran", "raillog", "completes"]
 
 
 def run(ctx):
     consts = {"MaxIn": 1, "MaxOut": 1, "MaxTurns": 1} if ctx.quick else {"MaxIn": 2, "MaxOut": 2, "MaxTurns": 1}
-    cov = p_pipeline.run_family(ctx, "C16", "c16", consts, options_mode=True, clauses=CLAUSES)
+    cov = p_pipeline.run_family(ctx, "C16", "c16", consts, options_mode=True, clauses=CLAUSES, extra_scripts=p_pipeline.directed_c16())
     cov["rule"] = ("every script of family c16: all 16 subsets of {input, dialog, retrieval, output} x 1..%d input / 1..%d output rails x "
                    "verdict vectors over accept/reject/rewrite x bot message supplied or not (only with dialog off), one retrieval rail; "
                    "non-trivial = options set" % (consts["MaxIn"], consts["MaxOut"]))
